@@ -29,6 +29,8 @@ from typing import Any
 
 VERIF = os.path.dirname(os.path.dirname(os.path.abspath(__file__)))
 KNOWN_FILE = os.path.join(VERIF, "KNOWN_FINDINGS.txt")
+# evidence/ and replays/ go to /verif unless redirected (mutant runner, scratch experiments)
+OUT_DIR = os.environ.get("VERIF_OUT_DIR") or VERIF
 MAX_SAMPLES = 8
 
 
@@ -374,7 +376,7 @@ def run_check(prop_id: str, tier: str) -> int:
         except Exception:  # noqa: BLE001
             small, detail = info["case"], info["detail"]
         name = hashlib.blake2b(sig.encode(), digest_size=5).hexdigest()
-        replay = os.path.join(VERIF, "replays", f"{prop_id}-{name}.json")
+        replay = os.path.join(OUT_DIR, "replays", f"{prop_id}-{name}.json")
         _write_json(
             replay,
             {
@@ -416,7 +418,7 @@ def run_check(prop_id: str, tier: str) -> int:
         "wall_s": round(wall, 2),
         "violations": len(violations),
     }
-    _write_json(os.path.join(VERIF, "evidence", f"{prop_id}.json"), evidence)
+    _write_json(os.path.join(OUT_DIR, "evidence", f"{prop_id}.json"), evidence)
 
     print(
         f"property={prop_id} tier={tier} seed={seed} cases={total.cases} evaluations={total.evaluations} "
